@@ -28,7 +28,7 @@ type SendScenario struct {
 	// Batches: each inner list is one Send call's messages (send op may have several).
 	Batches [][]MsgSpec `json:"batches,omitempty"`
 	// PreRender renders every message once before sending (so Send does not see a fresh Msg).
-	PreRender bool   `json:"preRender,omitempty"`
+	PreRender bool `json:"preRender,omitempty"`
 	// Resend: after the operation, every message that carries a send error is handed to a
 	// second DialAndSend on the same Client (a caller retrying what failed).
 	Resend bool `json:"resend,omitempty"`
@@ -37,9 +37,9 @@ type SendScenario struct {
 	DialFail int `json:"dialFail,omitempty"`
 	// CtxMs: when > 0 the caller's context carries a deadline of its own, CtxMs from the start
 	// of the call (DialWithContext / DialAndSendWithContext); otherwise context.Background().
-	CtxMs int `json:"ctxMs,omitempty"`
-	Sched     uint64 `json:"sched"`
-	Policy    sim.Policy `json:"policy,omitempty"`
+	CtxMs  int        `json:"ctxMs,omitempty"`
+	Sched  uint64     `json:"sched"`
+	Policy sim.Policy `json:"policy,omitempty"`
 }
 
 func callCtx(sc *SendScenario) (context.Context, context.CancelFunc) {
@@ -218,13 +218,13 @@ func execSendHook(t *testing.T, sc *SendScenario, logger mlog.Logger, hook func(
 				for _, bs := range run.Built {
 					ms := msgsOf(bs)
 					call := env.Call("DialAndSend", func() error {
-					if sc.CtxMs > 0 {
-						ctx, cancel := callCtx(sc)
-						defer cancel()
-						return c.DialAndSendWithContext(ctx, ms...)
-					}
-					return c.DialAndSend(ms...)
-				})
+						if sc.CtxMs > 0 {
+							ctx, cancel := callCtx(sc)
+							defer cancel()
+							return c.DialAndSendWithContext(ctx, ms...)
+						}
+						return c.DialAndSend(ms...)
+					})
 					run.SendCalls = append(run.SendCalls, call)
 					if !call.Returned {
 						break
